@@ -107,6 +107,13 @@ func variants() []extVariant {
 		{"vnull", func(r *hx.Rand, p []string) (string, string) { return strHash("null", sha(pick(r, p))) }},
 		{"v1.5", func(r *hx.Rand, p []string) (string, string) { return strHash("1.5", sha(pick(r, p))) }},
 		{"vabsent", func(r *hx.Rand, p []string) (string, string) { return strHash("", sha(pick(r, p))) }},
+		// a version of any other JSON kind is an unknown version like any other (and must not crash a comparison or lookup)
+		{"v-other-kind", func(r *hx.Rand, p []string) (string, string) {
+			return strHash(hx.Pick(r, []string{`[1]`, `[]`, `{"major":1}`, `{}`, `true`, `false`, `[[1]]`, `-1`, `0`, `1.0000000000000002`, `"one"`, `""`}), sha(pick(r, p)))
+		}},
+		{"hash-other-kind", func(r *hx.Rand, p []string) (string, string) {
+			return pq("1", hx.Pick(r, []string{`{"a":1}`, `[["x"]]`, `1.5`, `false`, `{}`})), hx.N("ext", hx.A("one"), hx.A("nostr")).String()
+		}},
 		// member names are case-sensitive protocol keys: a differently-cased key is a different (unknown) member
 		{"key-case-Version", func(r *hx.Rand, p []string) (string, string) {
 			h := sha(pick(r, p))
@@ -468,7 +475,7 @@ func main() {
 			run.Violate("correspondence", "the Lean SHA-256 disagrees with crypto/sha256: "+bad, "", true, bad)
 		}
 	}
-	run.SetRule("histories of requests {GET,POST} × {no text, 7 texts (valid, invalid, multi-operation)} × 26 extension spellings (incl. differently-cased member names) against one recording storage; distinct = distinct history; non-trivial = contains a version-1 registration and a version-1 hash-only lookup")
+	run.SetRule("histories of requests {GET,POST} × {no text, 7 texts (valid, invalid, multi-operation)} × 28 extension spellings (incl. differently-cased member names) against one recording storage; distinct = distinct history; non-trivial = contains a version-1 registration and a version-1 hash-only lookup")
 
 	if run.Replay != "" {
 		var hist []Step
